@@ -21,17 +21,17 @@ Inductive c10_case :=
 Definition D : Z := 0%Z.                        (* leaf default of every generated operand *)
 
 (* ---- canonical numbering *)
-Fixpoint dedup (seen : list nat) (l : list nat) : list nat :=
+Fixpoint dedup (seen : list N) (l : list N) : list N :=
   match l with
   | [] => []
   | x :: l' => if mem x seen then dedup seen l' else x :: dedup (x :: seen) l'
   end.
-Fixpoint index_of (x : nat) (l : list nat) : nat :=
+Fixpoint index_of (x : N) (l : list N) : N :=
   match l with
-  | [] => O
-  | y :: l' => if Nat.eqb x y then O else S (index_of x l')
+  | [] => 0%N
+  | y :: l' => if N.eqb x y then 0%N else N.succ (index_of x l')
   end.
-Definition canon_of (snaps : list snapshot) : nat -> nat :=
+Definition canon_of (snaps : list snapshot) : N -> N :=
   let order := dedup [] (flat_map snap_labels snaps) in fun l => index_of l order.
 
 (* ---- encoding *)
@@ -41,13 +41,13 @@ Fixpoint enc_et (t : et) : V :=
   | EL v => VZ v
   | EN es => VL (map (fun ct => VL [enc_coord (fst ct); enc_et (snd ct)]) es)
   end.
-Definition enc_labs (r : nat -> nat) (l : list nat) : V := VL (map (fun x => VZ (Z.of_nat (r x))) l).
-Definition enc_snap (r : nat -> nat) (s : snapshot) : V :=
+Definition enc_labs (r : N -> N) (l : list N) : V := VL (map (fun x => VZ (Z.of_N (r x))) l).
+Definition enc_snap (r : N -> N) (s : snapshot) : V :=
   VL [enc_et (erase (s_tree s)); enc_labs r (snap_labels s);
       VL (map (fun x => enc_labs r (r_fibers x)) (s_ranks s))].
 
 (* ---- the model's observation *)
-Fixpoint load_all (n : nat) (ts : list pt) (nx : nat) : list snapshot * nat :=
+Fixpoint load_all (n : nat) (ts : list pt) (nx : N) : list snapshot * N :=
   match ts with
   | [] => ([], nx)
   | t :: ts' => let '(s, n1) := load_snap n t nx in
@@ -61,7 +61,7 @@ Record cv_trace := { t_s0 : list snapshot; t_s1 : list snapshot; t_sr : snapshot
    result (every box +7, every fiber's coordinates +1000, every rank list extended), snapshot,
    mutate the operands (+5), snapshot the result *)
 Definition cv_run (fixed : bool) (n : nat) (o : vop) (ts : list pt) : option cv_trace :=
-  let '(ops, nx) := load_all n ts O in
+  let '(ops, nx) := load_all n ts 0%N in
   match run_vop fixed D n o ops nx with
   | None => None
   | Some r =>
@@ -83,7 +83,7 @@ Definition enc_trace (t : cv_trace) : V :=
 
 Definition cr_run (addtorank : bool) (n : nat) (a b : pt) (obs : list robs)
   : (snapshot * snapshot) * (snapshot * snapshot) :=
-  let '(sa, n1) := load_snap n a O in
+  let '(sa, n1) := load_snap n a 0%N in
   let '(sb, n2) := load_snap n b n1 in
   let '(sa', sb', _) := fold_left (fun st o => observe addtorank D o st) obs (sa, sb, n2) in
   ((sa, sb), (sa', sb')).
@@ -159,13 +159,13 @@ Fixpoint pt_depth_ok (k : nat) (t : pt) : bool :=
   | PN es, S k' => forallb (fun ct => pt_depth_ok k' (snd ct)) es
   | _, _ => false
   end.
-Definition boundedb (nx : nat) (s : snapshot) : bool := forallb (fun l => Nat.ltb l nx) (snap_labels s).
+Definition boundedb (nx : N) (s : snapshot) : bool := forallb (fun l => N.ltb l nx) (snap_labels s).
 
 Definition c10_wf (c : c10_case) : bool :=
   match c with
   | CV n o ts =>
     negb (Nat.eqb (length ts) O)
-    && (let '(ops, nx) := load_all n ts O in forallb (boundedb nx) ops)
+    && (let '(ops, nx) := load_all n ts 0%N in forallb (boundedb nx) ops)
     && match cv_run true n o ts with Some _ => true | None => false end
   | CR n a b obs => Nat.ltb O n && pt_depth_ok n a && pt_depth_ok n b
   end.
